@@ -7,6 +7,7 @@ import (
 	"crypto/ecdsa"
 	"encoding/hex"
 	"fmt"
+	"math/big"
 	"sort"
 	"strings"
 	"testing"
@@ -28,6 +29,7 @@ import (
 	"github.com/palomachain/paloma/v2/x/skyway/keeper"
 	"github.com/palomachain/paloma/v2/x/skyway/types"
 	evmtypes "github.com/palomachain/paloma/v2/x/evm/types"
+	treasurytypes "github.com/palomachain/paloma/v2/x/treasury/types"
 	valsettypes "github.com/palomachain/paloma/v2/x/valset/types"
 )
 
@@ -63,8 +65,11 @@ type bhist struct {
 	vals    []sdk.ValAddress
 	orchIdx map[string]int64
 	regAddr []string          // lower-case hex address registered now
+	prevAddr map[int]string   // validator -> the address it released with its last re-registration (no snapshot was built since)
 	stranger sdk.AccAddress   // an account that is no validator (model id strangerID, never given a status)
 	scID     uint64           // id of the chain's active compass contract
+	c2       *chain2          // a second EVM chain with a bridged token of its own (two-chain histories only)
+	on2      map[uint64]bool  // batch nonce -> the batch is on the second chain
 	dead     bool             // the history ended (a redeploy left open batches behind: known finding on trees without the fix)
 	regAt   map[string]string // "<nonce>/<val>" -> address registered when the confirmation was accepted
 	steps   []string
@@ -72,6 +77,101 @@ type bhist struct {
 	okOps   int
 	rejOps  int
 	viol    bool
+}
+
+// chain2: the second chain of a two-chain history.  Its token contract address sorts ABOVE the first chain's, so the batch
+// store (iterated in reverse key order: token contract descending) lists its batches first.
+type chain2 struct {
+	name  string
+	token *types.EthAddress
+	denom string
+	tid   string
+	scID  uint64
+	reg   []string // lower-case hex address each validator has registered for it now ("" = none)
+}
+
+const (
+	chain2Name  = "chain-two"
+	chain2Token = "0xFf00000000000000000000000000000000000a02"
+	chain2Denom = "utokb"
+)
+
+func (h *bhist) is2(n uint64) bool { return h.c2 != nil && h.on2[n] }
+func (h *bhist) cidOf(n uint64) int64 {
+	if h.is2(n) {
+		return 2
+	}
+	return 1
+}
+func (h *bhist) tokenOf(n uint64) *types.EthAddress {
+	if h.is2(n) {
+		return h.c2.token
+	}
+	return h.token
+}
+func (h *bhist) tidOf(n uint64) string {
+	if h.is2(n) {
+		return h.c2.tid
+	}
+	return h.tid
+}
+func (h *bhist) nameOf(n uint64) string {
+	if h.is2(n) {
+		return h.c2.name
+	}
+	return chainName
+}
+
+// regOf: the address validator v has registered now for the chain of batch n.
+func (h *bhist) regOf(v int, n uint64) string {
+	if h.is2(n) {
+		return h.c2.reg[v]
+	}
+	return h.regAddr[v]
+}
+
+// addSecondChain: chain-two with its own bridged token (contract address above the first chain's), every validator
+// registered on both chains with the same eth key, relayer fees for both, an active compass, a fresh snapshot.
+func (h *bhist) addSecondChain() {
+	t, in := h.t, h.in
+	must := func(err error) {
+		if err != nil {
+			t.Fatal(err)
+		}
+	}
+	must(in.EvmKeeper.AddSupportForNewChain(h.ctx, chain2Name, 2, 123, "0x1234", big.NewInt(55)))
+	tok, err := types.NewEthAddress(chain2Token)
+	must(err)
+	h.c2 = &chain2{name: chain2Name, token: tok, denom: chain2Denom, tid: "compass-1-" + chain2Name, scID: 1}
+	h.on2 = map[uint64]bool{}
+	for v := range h.vals {
+		infos, err := in.ValsetKeeper.GetValidatorChainInfos(h.ctx, h.vals[v])
+		must(err)
+		if len(infos) != 1 {
+			t.Fatalf("validator %d: %d accounts", v, len(infos))
+		}
+		two := &valsettypes.ExternalChainInfo{ChainType: "evm", ChainReferenceID: chain2Name, Address: infos[0].Address, Pubkey: infos[0].Pubkey}
+		must(in.ValsetKeeper.AddExternalChainInfo(h.ctx, h.vals[v], []*valsettypes.ExternalChainInfo{infos[0], two}))
+		must(in.TreasuryKeeper.SetRelayerFee(h.ctx, h.vals[v], &treasurytypes.RelayerFeeSetting{ValAddress: h.vals[v].String(), Fees: []treasurytypes.RelayerFeeSetting_FeeSetting{
+			{Multiplicator: sdkmath.LegacyMustNewDecFromStr("1.10"), ChainReferenceId: chainName}, {Multiplicator: sdkmath.LegacyMustNewDecFromStr("1.10"), ChainReferenceId: chain2Name}}}))
+		a := common.HexToAddress(infos[0].Address)
+		h.c2.reg = append(h.c2.reg, lower(a))
+		row := func(c int64, x *valsettypes.ExternalChainInfo) string {
+			return emit.Pair(emit.ZI(c), emit.ZI(idOf(h.strIDs, x.Address)), emit.ZI(idOf(h.keyIDs, hex.EncodeToString(x.Pubkey))), emit.ZI(idOf(h.addrIDs, lower(a))))
+		}
+		h.steps = append(h.steps, fmt.Sprintf("C06.BStep (C06.BReg %d %s) 0 [] []", v, emit.List([]string{row(1, infos[0]), row(2, two)})))
+	}
+	must(in.EvmKeeper.ActivateChainReferenceID(h.ctx, chain2Name, &evmtypes.SmartContract{Id: 1}, "0x6B3E98aA540B2C3545E1DbA2D5e8B3e3e8bD3c7e", []byte(h.c2.tid)))
+	h.ctx = h.ctx.WithBlockHeight(h.ctx.BlockHeight() + 1)
+	h.in.Context = h.ctx
+	_, err = in.ValsetKeeper.TriggerSnapshotBuild(h.ctx)
+	must(err)
+	in.MetrixKeeper.UpdateUptime(h.ctx)
+	must(keeper.NewSkywayProposalHandler(in.SkywayKeeper)(h.ctx, &types.SetERC20ToDenomProposal{Title: "t", Description: "d", ChainReferenceId: chain2Name, Erc20: chain2Token, Denom: chain2Denom}))
+	coins := sdk.NewCoins(sdk.NewCoin(chain2Denom, sdkmath.NewInt(1_000_000_000)))
+	must(in.BankKeeper.MintCoins(h.ctx, types.ModuleName, coins))
+	must(in.BankKeeper.SendCoinsFromModuleToAccount(h.ctx, types.ModuleName, h.send, coins))
+	h.replay = append(h.replay, map[string]any{"op": "setup: second chain " + chain2Name + " with token " + chain2Token + " (sorts above the first chain's token), validators registered on both chains, snapshot rebuilt"})
 }
 
 func lower(a common.Address) string { return strings.ToLower(a.Hex()) }
@@ -250,7 +350,7 @@ func (h *bhist) addValidators(extra int) {
 }
 
 func (h *bhist) stored(nonce uint64) *types.InternalOutgoingTxBatch {
-	b, err := h.in.SkywayKeeper.GetOutgoingTXBatch(h.ctx, *h.token, nonce)
+	b, err := h.in.SkywayKeeper.GetOutgoingTXBatch(h.ctx, *h.tokenOf(nonce), nonce)
 	if err != nil {
 		h.t.Fatal(err)
 	}
@@ -266,11 +366,11 @@ func bodyOf(b *types.InternalOutgoingTxBatch, tid string) string {
 }
 
 func (h *bhist) versionOf(b *types.InternalOutgoingTxBatch) bversion {
-	cp, err := b.GetCheckpoint(h.tid)
+	cp, err := b.GetCheckpoint(h.tidOf(b.BatchNonce))
 	if err != nil {
 		h.t.Fatal(err)
 	}
-	return bversion{cp: cp, coq: fmt.Sprintf("1 %d %d %d %d %s", idOf(h.bodyIDs, bodyOf(b, h.tid)), b.BatchNonce, b.BatchTimeout,
+	return bversion{cp: cp, coq: fmt.Sprintf("%d %d %d %d %d %s", h.cidOf(b.BatchNonce), idOf(h.bodyIDs, bodyOf(b, h.tidOf(b.BatchNonce))), b.BatchNonce, b.BatchTimeout,
 		idOf(h.relIDs, lower(b.AssigneeRemoteAddress)), emit.ZU(b.GasEstimate))}
 }
 
@@ -319,8 +419,8 @@ func (h *bhist) observe(after string) (string, string) {
 			continue
 		}
 		live[n] = b
-		bs = append(bs, emit.Pair(emit.ZU(n), "1", emit.ZU(b.GasEstimate), emit.ZI(idOf(h.relIDs, lower(b.AssigneeRemoteAddress)))))
-		cp, err := b.GetCheckpoint(h.tid)
+		bs = append(bs, emit.Pair(emit.ZU(n), emit.ZI(h.cidOf(n)), emit.ZU(b.GasEstimate), emit.ZI(idOf(h.relIDs, lower(b.AssigneeRemoteAddress)))))
+		cp, err := b.GetCheckpoint(h.tidOf(n))
 		if err != nil {
 			h.t.Fatal(err)
 		}
@@ -332,13 +432,17 @@ func (h *bhist) observe(after string) (string, string) {
 	h.in.SkywayKeeper.IterateBatchConfirms(h.ctx, func(_ []byte, c types.MsgConfirmBatch) bool {
 		v := h.valOfOrch(c.Orchestrator)
 		signer := lower(common.HexToAddress(c.EthSigner))
-		cs = append(cs, emit.Pair(emit.ZU(c.Nonce), "1", emit.ZI(v), emit.ZI(idOf(h.addrIDs, signer))))
+		ccid := int64(1)
+		if h.c2 != nil && common.HexToAddress(c.TokenContract) == h.c2.token.GetAddress() {
+			ccid = 2
+		}
+		cs = append(cs, emit.Pair(emit.ZU(c.Nonce), emit.ZI(ccid), emit.ZI(v), emit.ZI(idOf(h.addrIDs, signer))))
 		b := live[c.Nonce]
 		if b == nil {
 			h.violate("C06:confirm-without-batch", fmt.Sprintf("after %s: a confirmation of validator #%d for batch %d is stored but the batch is not", after, v, c.Nonce))
 			return false
 		}
-		cp, _ := b.GetCheckpoint(h.tid)
+		cp, _ := b.GetCheckpoint(h.tidOf(c.Nonce))
 		sg, err := hex.DecodeString(strings.TrimPrefix(c.Signature, "0x"))
 		ok := err == nil && len(sg) == 65
 		var rec common.Address
@@ -391,26 +495,42 @@ func (h *bhist) stepObs(op string, class int64, rep map[string]any, obs bool) {
 
 var bdests = []string{"0xd041c41EA1bf0F006ADBb6d2c9ef9D425dE5eaD7", "0x1111111111111111111111111111111111111111", "0x2222222222222222222222222222222222222222"}
 
-func (h *bhist) opBuild() {
+func (h *bhist) opBuild() { h.opBuildOn(false) }
+
+func (h *bhist) opBuildOn(second bool) {
 	r := h.run.Rng
+	cname, ctoken, cdenom, cid, ctid := chainName, h.token, denom, 1, h.tid
+	if second {
+		cname, ctoken, cdenom, cid, ctid = h.c2.name, h.c2.token, h.c2.denom, 2, h.c2.tid
+	}
 	n := 1 + r.Intn(2)
 	var txs []string
 	for i := 0; i < n; i++ {
 		d, _ := types.NewEthAddress(bdests[r.Intn(len(bdests))])
 		amt := int64(1 + r.Intn(3))
-		if _, err := h.in.SkywayKeeper.AddToOutgoingPool(h.ctx, h.send, *d, sdk.NewCoin(denom, sdkmath.NewInt(amt)), chainName); err != nil {
+		if _, err := h.in.SkywayKeeper.AddToOutgoingPool(h.ctx, h.send, *d, sdk.NewCoin(cdenom, sdkmath.NewInt(amt)), cname); err != nil {
 			h.t.Fatalf("AddToOutgoingPool: %v", err)
 		}
 		txs = append(txs, fmt.Sprintf("%s:%d", d.GetAddress().Hex(), amt))
 	}
-	b, err := h.in.SkywayKeeper.BuildOutgoingTXBatch(h.ctx, chainName, *h.token, 10)
+	b, err := h.in.SkywayKeeper.BuildOutgoingTXBatch(h.ctx, cname, *ctoken, 10)
+	if err != nil && second && strings.Contains(err.Error(), "no remote address found for validator") {
+		// the relayer picked from the snapshot has re-registered since and has no account on the second chain any more:
+		// nothing is built (the batch builder works on a branch of the store), the transfers stay in the pool
+		h.run.Count("op", "build-refused(relayer without account on the chain)")
+		h.replay = append(h.replay, map[string]any{"op": "build (refused: " + err.Error() + ")", "chain": cname})
+		return
+	}
 	if err != nil || b == nil {
 		h.t.Fatalf("BuildOutgoingTXBatch: %v %v", b, err)
 	}
 	h.nonces = append(h.nonces, b.BatchNonce)
+	if second {
+		h.on2[b.BatchNonce] = true
+	}
 	h.run.Count("op", "build")
-	h.step(fmt.Sprintf("C06.BBld 1 1 %d %d %d", idOf(h.bodyIDs, bodyOf(b, h.tid)), b.BatchTimeout, idOf(h.relIDs, lower(b.AssigneeRemoteAddress))), 0,
-		map[string]any{"op": "build", "pool": txs, "nonce": b.BatchNonce})
+	h.step(fmt.Sprintf("C06.BBld %d %d %d %d %d", cid, cid, idOf(h.bodyIDs, bodyOf(b, ctid)), b.BatchTimeout, idOf(h.relIDs, lower(b.AssigneeRemoteAddress))), 0,
+		map[string]any{"op": "build", "chain": cname, "pool": txs, "nonce": b.BatchNonce})
 }
 
 func (h *bhist) pickNonce() (uint64, bool) {
@@ -468,7 +588,7 @@ func (h *bhist) confirmAs(v int, n uint64, plain, obs bool) {
 	r := h.run.Rng
 	orch, mv, reg := h.stranger, int64(strangerID), ""
 	if v >= 0 {
-		orch, mv, reg = h.accs[v], int64(v), h.regAddr[v]
+		orch, mv, reg = h.accs[v], int64(v), h.regOf(v, n)
 	}
 	signerKey := -1
 	for i := range h.keys {
@@ -488,6 +608,15 @@ func (h *bhist) confirmAs(v int, n uint64, plain, obs bool) {
 	if !plain && r.Intn(12) == 0 {
 		claimed = h.keyAddr(r.Intn(len(h.keys)))
 		how += "/claims-other-address"
+	}
+	// the key the validator released with its last re-registration (the valset snapshot, built before, still lists it):
+	// signed with it and claimed as signer - it is not the validator's registered key any more
+	if prev := h.prevAddr[v]; !plain && v >= 0 && prev != "" && prev != reg && r.Intn(6) == 0 {
+		for i := range h.keys {
+			if lower(h.keyAddr(i)) == prev {
+				signerKey, claimed, how = i, common.HexToAddress(prev), "released-key"
+			}
+		}
 	}
 	if v < 0 {
 		how = "no-validator"
@@ -536,7 +665,7 @@ func (h *bhist) confirmAs(v int, n uint64, plain, obs bool) {
 	written := spell(r, claimed)
 	h.run.Count("signer-spelling", spellingClass(written, claimed))
 	_, err = h.ms.ConfirmBatch(h.ctx, &types.MsgConfirmBatch{
-		Nonce: n, TokenContract: spell(r, h.token.GetAddress()), EthSigner: written, Orchestrator: orch.String(), Signature: sig,
+		Nonce: n, TokenContract: spell(r, h.tokenOf(n).GetAddress()), EthSigner: written, Orchestrator: orch.String(), Signature: sig,
 		Metadata: valsettypes.MsgMetadata{Creator: orch.String(), Signers: []string{orch.String()}},
 	})
 	c := confirmClass(err)
@@ -552,7 +681,7 @@ func (h *bhist) confirmAs(v int, n uint64, plain, obs bool) {
 	h.run.Count("op", "confirm")
 	h.run.Count("confirm-what", what+"/"+how)
 	h.run.Count("confirm-outcome", fmt.Sprint(c))
-	h.stepObs(fmt.Sprintf("C06.BCnf %d %d 1 %d %s", mv, n, idOf(h.addrIDs, lower(claimed)), spec), c,
+	h.stepObs(fmt.Sprintf("C06.BCnf %d %d %d %d %s", mv, n, h.cidOf(n), idOf(h.addrIDs, lower(claimed)), spec), c,
 		map[string]any{"op": "confirm", "validator": mv, "orchestrator": orch.String(), "nonce": n, "eth_signer": written, "signing_key": signerKey, "signed": what, "checkpoint": hex.EncodeToString(cp), "signature": sig}, obs)
 }
 
@@ -596,7 +725,7 @@ func (h *bhist) opEstimate() {
 	}
 	h.run.Count("op", "update-estimate")
 	h.run.Count("estimate-outcome", fmt.Sprint(c))
-	h.step(fmt.Sprintf("C06.BUpd %d 1 %s", n, emit.ZU(est)), c, map[string]any{"op": "update-estimate", "nonce": n, "estimate": est})
+	h.step(fmt.Sprintf("C06.BUpd %d %d %s", n, h.cidOf(n), emit.ZU(est)), c, map[string]any{"op": "update-estimate", "nonce": n, "estimate": est})
 }
 
 // opEndBlock: validators send MsgEstimateBatchGas, (sometimes time passes beyond the timeout), the module's
@@ -621,7 +750,7 @@ func (h *bhist) opEndBlock() {
 		base := bests[r.Intn(len(bests))]
 		for _, v := range r.Perm(5)[:2+r.Intn(4)] {
 			_, _ = h.ms.EstimateBatchGas(h.ctx, &types.MsgEstimateBatchGas{
-				Nonce: n, TokenContract: spell(r, h.token.GetAddress()), EthSigner: spell(r, common.HexToAddress(h.regAddr[v])), Estimate: base + uint64(r.Intn(3)),
+				Nonce: n, TokenContract: spell(r, h.tokenOf(n).GetAddress()), EthSigner: spell(r, common.HexToAddress(h.regAddr[v])), Estimate: base + uint64(r.Intn(3)),
 				Metadata: valsettypes.MsgMetadata{Creator: h.accs[v].String(), Signers: []string{h.accs[v].String()}},
 			})
 		}
@@ -634,7 +763,7 @@ func (h *bhist) opEndBlock() {
 		b := h.stored(n)
 		if b != nil && b.GasEstimate != before[n] {
 			h.run.Count("endblock-effect", "estimate-elected")
-			h.step(fmt.Sprintf("C06.BUpd %d 1 %s", n, emit.ZU(b.GasEstimate)), 0, map[string]any{"op": how + " -> elected estimate", "nonce": n, "estimate": b.GasEstimate})
+			h.step(fmt.Sprintf("C06.BUpd %d %d %s", n, h.cidOf(n), emit.ZU(b.GasEstimate)), 0, map[string]any{"op": how + " -> elected estimate", "nonce": n, "estimate": b.GasEstimate})
 			did = true
 		}
 	}
@@ -646,7 +775,7 @@ func (h *bhist) opEndBlock() {
 	}
 	for i, n := range gone {
 		h.run.Count("endblock-effect", "timed-out")
-		op := fmt.Sprintf("C06.BRem %d 1", n)
+		op := fmt.Sprintf("C06.BRem %d %d", n, h.cidOf(n))
 		rep := map[string]any{"op": how + " -> cancelled timed-out batch", "nonce": n}
 		if i+1 < len(gone) {
 			rep["outcome"] = 0
@@ -672,11 +801,11 @@ func (h *bhist) opRemove() {
 	var err error
 	how := "cancel"
 	if h.run.Rng.Intn(2) == 0 {
-		err = h.in.SkywayKeeper.CancelOutgoingTXBatch(h.ctx, *h.token, n)
+		err = h.in.SkywayKeeper.CancelOutgoingTXBatch(h.ctx, *h.tokenOf(n), n)
 	} else {
 		how = "executed"
-		err = h.in.SkywayKeeper.OutgoingTxBatchExecuted(h.ctx, *h.token, types.MsgBatchSendToRemoteClaim{
-			BatchNonce: n, EthBlockHeight: 1, TokenContract: h.token.GetAddress().Hex(), ChainReferenceId: chainName})
+		err = h.in.SkywayKeeper.OutgoingTxBatchExecuted(h.ctx, *h.tokenOf(n), types.MsgBatchSendToRemoteClaim{
+			BatchNonce: n, EthBlockHeight: 1, TokenContract: h.tokenOf(n).GetAddress().Hex(), ChainReferenceId: h.nameOf(n)})
 	}
 	c := int64(0)
 	if err != nil {
@@ -686,7 +815,7 @@ func (h *bhist) opRemove() {
 		c = 1
 	}
 	h.run.Count("op", how)
-	h.step(fmt.Sprintf("C06.BRem %d 1", n), c, map[string]any{"op": how, "nonce": n})
+	h.step(fmt.Sprintf("C06.BRem %d %d", n, h.cidOf(n)), c, map[string]any{"op": how, "nonce": n})
 }
 
 // opRegister: a validator replaces its external account (new key), possibly with one another validator
@@ -712,7 +841,16 @@ func (h *bhist) registerAs(v, key int, written string) {
 	c := int64(0)
 	switch {
 	case err == nil:
+		if h.prevAddr == nil {
+			h.prevAddr = map[int]string{}
+		}
+		if h.regAddr[v] != "" && h.regAddr[v] != lower(a) {
+			h.prevAddr[v] = h.regAddr[v]
+		}
 		h.regAddr[v] = lower(a)
+		if h.c2 != nil {
+			h.c2.reg[v] = "" // the new set of accounts has none for the second chain
+		}
 	case strings.Contains(err.Error(), "external account already registered"):
 		c = 8
 	case strings.Contains(err.Error(), "cannot be a pigeon"):
@@ -735,23 +873,32 @@ var redeployRefreshes bool
 // compass does); sameID: the new deployment reports the compass id the chain already has.  The checkpoint of a batch covers
 // the compass id and ConfirmBatch verifies against the id of the CURRENT compass: what the module did to the open batches
 // is read back and given to the model as BRebody steps (new body, confirmations dropped).
-func (h *bhist) opRedeploy(sameID bool) {
-	newTid := h.tid
-	h.scID++
-	if !sameID {
-		newTid = fmt.Sprintf("compass-%d-%s", h.scID, chainName)
+func (h *bhist) opRedeploy(sameID bool) { h.opRedeployOn(false, sameID) }
+
+func (h *bhist) opRedeployOn(second, sameID bool) {
+	cname, ptid, pscID := chainName, &h.tid, &h.scID
+	if second {
+		cname, ptid, pscID = h.c2.name, &h.c2.tid, &h.c2.scID
 	}
-	if err := h.in.EvmKeeper.ActivateChainReferenceID(h.ctx, chainName, &evmtypes.SmartContract{Id: h.scID}, "0x5A3E98aA540B2C3545E1DbA2D5e8B3e3e8bD3c7e", []byte(newTid)); err != nil {
+	newTid := *ptid
+	*pscID++
+	if !sameID {
+		newTid = fmt.Sprintf("compass-%d-%s", *pscID, cname)
+	}
+	if err := h.in.EvmKeeper.ActivateChainReferenceID(h.ctx, cname, &evmtypes.SmartContract{Id: *pscID}, "0x5A3E98aA540B2C3545E1DbA2D5e8B3e3e8bD3c7e", []byte(newTid)); err != nil {
 		h.t.Fatalf("ActivateChainReferenceID: %v", err)
 	}
-	ci, err := h.in.EvmKeeper.GetChainInfo(h.ctx, chainName)
+	ci, err := h.in.EvmKeeper.GetChainInfo(h.ctx, cname)
 	if err != nil || string(ci.SmartContractUniqueID) != newTid {
 		h.t.Fatalf("compass id after activation: %q %v", ci.GetSmartContractUniqueID(), err)
 	}
-	h.tid = newTid
+	*ptid = newTid
 	how := "compass-redeploy"
 	if sameID {
 		how = "compass-reactivated-same-id"
+	}
+	if h.c2 != nil {
+		how += "(" + cname + ")"
 	}
 	h.run.Count("op", how)
 	var changed []uint64
@@ -761,13 +908,13 @@ func (h *bhist) opRedeploy(sameID bool) {
 		if b == nil {
 			continue
 		}
-		cp, err := b.GetCheckpoint(h.tid)
+		cp, err := b.GetCheckpoint(h.tidOf(n))
 		if err != nil {
 			h.t.Fatal(err)
 		}
 		if hex.EncodeToString(cp) != hex.EncodeToString(b.BytesToSign) {
 			stale = n
-			cs, _ := h.in.SkywayKeeper.GetBatchConfirmByNonceAndTokenContract(h.ctx, n, *h.token)
+			cs, _ := h.in.SkywayKeeper.GetBatchConfirmByNonceAndTokenContract(h.ctx, n, *h.tokenOf(n))
 			kept += len(cs)
 		}
 		if vs := h.vers[n]; len(vs) > 0 && vs[len(vs)-1].coq != h.versionOf(b).coq {
@@ -789,7 +936,7 @@ func (h *bhist) opRedeploy(sameID bool) {
 	}
 	for i, n := range changed {
 		h.run.Count("redeploy-effect", "open batch renewed")
-		op := fmt.Sprintf("C06.BRbd %d 1 %d", n, idOf(h.bodyIDs, bodyOf(h.stored(n), h.tid)))
+		op := fmt.Sprintf("C06.BRbd %d %d %d", n, h.cidOf(n), idOf(h.bodyIDs, bodyOf(h.stored(n), h.tidOf(n))))
 		rep := map[string]any{"op": how + " -> batch renewed", "compass_id": newTid, "nonce": n}
 		h.stepObs(op, 0, rep, i+1 == len(changed))
 	}
@@ -948,6 +1095,61 @@ func runBigSetHistory(t *testing.T, run *emit.Run, scripted bool) *bhist {
 	h.step(fmt.Sprintf("C06.BRem %d 1", n2), 0, map[string]any{"op": "cancel", "nonce": n2})
 	for _, v := range again[:3] {
 		h.confirmAs(v, n2, true, true)
+	}
+	h.finish()
+	return h
+}
+
+// runTwoChainHistory (seeded C06-F): two EVM chains with a bridged token each, the second chain's token contract address
+// above the first's; batches are open and confirmed on BOTH chains when a new compass is activated for one of them.  The
+// renewal has to reach every open batch of the activated chain wherever it sits in the batch store (iterated token
+// contract descending, nonce descending) and must leave the other chain's batches and confirmations alone.
+func runTwoChainHistory(t *testing.T, run *emit.Run, scripted bool) *bhist {
+	h := newBHist(t, run)
+	h.addSecondChain()
+	r := run.Rng
+	run.Count("two-chain", "histories")
+	confirmSome := func(n uint64) {
+		for _, v := range r.Perm(5)[:2+r.Intn(3)] {
+			h.confirmAs(v, n, scripted || r.Intn(6) > 0, true)
+		}
+	}
+	h.opBuildOn(false)
+	h.opBuildOn(true)
+	confirmSome(h.nonces[0])
+	confirmSome(h.nonces[1])
+	if scripted {
+		h.opRedeployOn(false, false) // the first chain's batch sorts AFTER the second chain's in the iteration
+		if !h.dead {
+			confirmSome(h.nonces[0])
+			h.opRedeployOn(true, false)
+		}
+		if !h.dead {
+			confirmSome(h.nonces[1])
+		}
+		h.finish()
+		return h
+	}
+	n := 10 + r.Intn(10)
+	for i := 0; i < n && !h.dead; i++ {
+		switch k := r.Intn(100); {
+		case k < 15:
+			h.opBuildOn(r.Intn(2) == 0)
+		case k < 60:
+			h.opConfirm()
+		case k < 68:
+			h.opEndBlock()
+		case k < 74:
+			h.opRemove()
+		case k < 80:
+			h.opRegister(r.Intn(5), r.Intn(len(h.keys)))
+		default:
+			if redeployRefreshes {
+				h.opRedeployOn(r.Intn(2) == 0, r.Intn(5) == 0)
+			} else {
+				h.opConfirm()
+			}
+		}
 	}
 	h.finish()
 	return h
